@@ -12,11 +12,13 @@ from .tags import HASH_MODES, KEY_TAGS
 
 
 class Shadow:
-    __slots__ = ("cols", "eng", "pending", "nrows", "mat", "multi", "hidden")
+    __slots__ = ("cols", "eng", "pending", "nrows", "mat", "multi", "hidden", "leaves", "compound")
 
-    def __init__(self, cols, eng, pending=False, nrows=3, mat=False, multi=False, hidden=()):
+    def __init__(self, cols, eng, pending=False, nrows=3, mat=False, multi=False, hidden=(), leaves=(), compound=False):
         self.cols = set(cols)
         self.hidden = set(hidden)
+        self.leaves = frozenset(leaves)       # leaf tables read by this relation (to steer away from known findings)
+        self.compound = compound              # root is a chain (UNION)
         self.eng = eng
         self.pending = pending
         self.nrows = nrows
@@ -24,7 +26,7 @@ class Shadow:
         self.multi = multi
 
     def copy(self, **kw):
-        s = Shadow(self.cols, self.eng, self.pending, self.nrows, self.mat, self.multi, self.hidden)
+        s = Shadow(self.cols, self.eng, self.pending, self.nrows, self.mat, self.multi, self.hidden, self.leaves, self.compound)
         for k, v in kw.items():
             setattr(s, k, v)
         return s
@@ -196,10 +198,10 @@ class Gen:
             if r.random() < 0.5:
                 cols = cols if cols is not None else self._cols()
                 self.ops.append({"k": "leaf", "eng": eng, "cols": sorted(cols), "rows": [], "special": "doomed"})
-                self.pool.append(Shadow(cols, eng, nrows=0))
+                self.pool.append(Shadow(cols, eng, nrows=0, leaves={len(self.pool)}))
             else:
                 self.ops.append({"k": "leaf", "eng": eng, "cols": [], "rows": [[]], "special": "identity"})
-                self.pool.append(Shadow([], eng, nrows=1))
+                self.pool.append(Shadow([], eng, nrows=1, leaves={len(self.pool)}))
             return
         cols = sorted(cols if cols is not None else self._cols())
         n = r.choice([0, 1, 2, 3, 3, 4, 5][: self.max_rows + 2])
@@ -224,7 +226,7 @@ class Gen:
         if b != "exact":
             op["bounds"] = b
         self.ops.append(op)
-        self.pool.append(Shadow(cols, eng, nrows=n))
+        self.pool.append(Shadow(cols, eng, nrows=n, leaves={len(self.pool)}))
 
     def _cols(self):
         r = self.rng
@@ -322,7 +324,10 @@ class Gen:
             return
         sh = self.pool[i]
         fl = self.flags(sh)
-        self.ops.append({"k": "sort", "t": i, "terms": self.terms(sh.cols), **fl})
+        terms = self.terms(sh.cols)
+        if sh.compound and sh.eng == "sql" and self.rng.random() < 0.85:
+            terms = [[["ref", self.rng.choice(sorted(sh.cols))], t[1]] for t in terms]     # (known finding F25 otherwise)
+        self.ops.append({"k": "sort", "t": i, "terms": terms, **fl})
         self.pool.append(sh.copy(pending=True, eng=self._after_flags(sh, fl)))
 
     def g_slice(self):
@@ -345,7 +350,11 @@ class Gen:
         if i is None:
             return
         sh = self.pool[i]
-        ok = lambda s: s.cols == sh.cols and s.eng == sh.eng and (not s.pending or r.random() < self.allow_pending_binary)
+        nest_ok = r.random() < 0.15        # chains of chains hit known finding F16 in SQL: keep them rare
+        if sh.compound and sh.eng == "sql" and not nest_ok:
+            return
+        ok = lambda s: s.cols == sh.cols and s.eng == sh.eng and (not s.pending or r.random() < self.allow_pending_binary) \
+            and (nest_ok or not (s.compound and s.eng == "sql"))
         if sh.pending and r.random() >= self.allow_pending_binary:
             return
         j = self.pick(ok)
@@ -355,7 +364,7 @@ class Gen:
         if r.random() < 0.5:
             i, j = j, i
         self.ops.append({"k": "chain", "l": i, "r": j})
-        self.pool.append(sh.copy(pending=False))
+        self.pool.append(sh.copy(pending=False, compound=True, leaves=self.pool[i].leaves | self.pool[j].leaves))
 
     def g_chain_empty(self):
         """Chain with a statically empty branch (doomed leaf), in either position."""
@@ -415,11 +424,21 @@ class Gen:
         if i is None:
             return
         l = self.pool[i]
-        ok = lambda s: not ((s.cols & l.cols) & {"u", "v", "z", "w"}) and (not s.pending or r.random() < self.allow_pending_binary)
+        self_ok = r.random() < 0.1         # joins reading one table twice hit known finding F15: keep them rare
+        ok = lambda s: not ((s.cols & l.cols) & {"u", "v", "z", "w"}) and (not s.pending or r.random() < self.allow_pending_binary) \
+            and (self_ok or not (s.leaves & l.leaves))
         j = self.pick(ok)
         if j is None:
-            return
+            if len(self.pool) < 12 and r.random() < 0.5:
+                self.leaf(eng=l.eng if r.random() < 0.7 else None)     # a fresh table to join with
+                j = len(self.pool) - 1
+                if (self.pool[j].cols & l.cols) & {"u", "v"}:
+                    return
+            else:
+                return
         rr = self.pool[j]
+        if l.eng != "sql" and rr.eng != "sql" and r.random() < 0.85:
+            return                         # iteration-engine joins are known finding F19
         fl = {}
         if l.eng != rr.eng:
             if r.random() < 0.5:
@@ -430,7 +449,7 @@ class Gen:
         if r.random() < 0.2:
             fl["cc"] = True       # Join(pred, min_columns=max_columns=<shared key columns>).partial(rhs).apply(lhs)
         self.ops.append({"k": "join", "l": i, "r": j, "p": p, **fl})
-        self.pool.append(Shadow(l.cols | rr.cols, rr.eng))
+        self.pool.append(Shadow(l.cols | rr.cols, rr.eng, leaves=l.leaves | rr.leaves))
 
     def g_mat(self):
         i = self.pick(lambda s: not s.pending)
